@@ -179,6 +179,11 @@ func (b *Backend) addEmissions(method, cell string, cellType HoleClass, ems []Em
 				return Tmpl{h}
 			})
 		}
+		raw := em.T
+		if b.Role == "batch" {
+			em.T = b.X.ResolveStackHoles(em.T)
+		}
+		_ = raw
 		vars, ok := em.T.Expand(expandLimit)
 		if !ok {
 			b.Undecided = append(b.Undecided, fmt.Sprintf("%s: line template has more than %d variants: %s", method, expandLimit, em.T))
